@@ -2,3 +2,89 @@
 #[allow(unused_imports)]
 use super::*;
 include!("/verif/replay/in_crate/common.rs");
+use crate::core::util::test::test_manager::test::TestManager;
+use std::ops::Deref;
+
+fn status_code(s: &BlockStatus) -> u8 { match s { BlockStatus::Queued => 0, BlockStatus::Fetching => 1, BlockStatus::Fetched => 2, BlockStatus::Failed => 3 } }
+
+fn snapshot(state: &BlockchainSyncState) -> Vec<(PeerIndex, Vec<(BlockId, u8, u8, u32)>)> {
+    let mut v: Vec<_> = state.blocks_to_fetch.iter().map(|(p, d)| (*p, d.iter().map(|b| (b.block_id, b.block_hash[0], status_code(&b.status), b.retry_count)).collect::<Vec<_>>())).collect();
+    v.sort();
+    v
+}
+
+/// C16 safety clauses on the real scheduler, over random operation sequences (small universe of peers and hashes):
+/// in-flight ≤ batch, never the same block twice in a peer's queue, requests in non-decreasing height order and
+/// only for entries that were Queued, identity of entries kept, bounded retries.
+#[tokio::test]
+#[serial_test::serial]
+async fn scheduler_contract() {
+    let t = TestManager::default();
+    let blockchain = t.blockchain_lock.read().await;
+    let mut rng = Rng::from_env();
+    for run in 0..300 {
+        let batch = 1 + rng.below(4) as usize;
+        let mut state = BlockchainSyncState::new(batch);
+        let mut trace: Vec<String> = vec![];
+        let mut in_flight: Vec<(PeerIndex, SaitoHash, BlockId)> = vec![];
+        for _step in 0..40 {
+            match rng.below(6) {
+                0 | 1 => {
+                    let peer = 1 + rng.below(2);
+                    let id = 1 + rng.below(6);
+                    let h = [(id * 10 + rng.below(2)) as u8; 32];
+                    state.received_block_picture.entry(peer).or_default().push_back((id, h));
+                    trace.push(format!("announce(peer={},id={},h={})", peer, id, h[0]));
+                }
+                2 => {
+                    state.build_peer_block_picture(blockchain.deref());
+                    trace.push("build".into());
+                }
+                3 => {
+                    state.build_peer_block_picture(blockchain.deref());
+                    let before = snapshot(&state);
+                    let sel = state.get_blocks_to_fetch_per_peer();
+                    trace.push(format!("select→{:?}", sel.iter().map(|(p, v)| (*p, v.iter().map(|(h, id)| (*id, h[0])).collect::<Vec<_>>())).collect::<Vec<_>>()));
+                    for (p, v) in sel.iter() {
+                        for w in v.windows(2) { if w[0].1 > w[1].1 { witness(format!("run {} peer {}: requests not in height order: {:?}", run, p, trace)); } }
+                        for (h, id) in v.iter() {
+                            if in_flight.iter().any(|(p2, h2, id2)| p2 == p && h2 == h && id2 == id) { witness(format!("run {} peer {}: block {}-{} requested while already in flight: {:?}", run, p, id, h[0], trace)); }
+                            let old = before.iter().find(|(bp, _)| bp == p).map(|(_, q)| q.clone()).unwrap_or_default();
+                            if !old.iter().any(|(bid, bh, st, _)| bid == id && *bh == h[0] && *st == 0) { witness(format!("run {} peer {}: requested {}-{} was not Queued before: {:?}", run, p, id, h[0], trace)); }
+                            in_flight.push((*p, *h, *id));
+                        }
+                    }
+                }
+                4 => {
+                    if !in_flight.is_empty() {
+                        let k = rng.below(in_flight.len() as u64) as usize;
+                        let (p, h, id) = in_flight.remove(k);
+                        if rng.below(2) == 0 {
+                            state.mark_as_fetched(h);
+                            in_flight.retain(|(_, h2, _)| *h2 != h);
+                            trace.push(format!("fetched({})", h[0]));
+                        } else {
+                            state.mark_as_failed(id, h, p);
+                            trace.push(format!("failed(peer={},id={},h={})", p, id, h[0]));
+                        }
+                    }
+                }
+                _ => {
+                    let id = 1 + rng.below(6);
+                    let h = [(id * 10 + rng.below(2)) as u8; 32];
+                    state.remove_entry(h);
+                    in_flight.retain(|(_, h2, _)| *h2 != h);
+                    trace.push(format!("remove({})", h[0]));
+                }
+            }
+            for (p, deq) in state.blocks_to_fetch.iter() {
+                let fetching = deq.iter().filter(|b| matches!(b.status, BlockStatus::Fetching)).count();
+                if fetching > batch { witness(format!("run {} peer {}: {} fetches in flight > batch {}: {:?}", run, p, fetching, batch, trace)); }
+                for i in 0..deq.len() { for j in (i + 1)..deq.len() {
+                    if deq[i].block_id == deq[j].block_id && deq[i].block_hash == deq[j].block_hash { witness(format!("run {} peer {}: block {}-{} queued twice: {:?}", run, p, deq[i].block_id, deq[i].block_hash[0], trace)); }
+                } }
+                for b in deq.iter() { if b.retry_count > MAX_RETRIES_PER_BLOCK + 1 { witness(format!("retry count {} exceeds bound", b.retry_count)); } }
+            }
+        }
+    }
+}
